@@ -48,7 +48,7 @@ def _layout(deadline, rng, tier):
 
 def _order(deadline, rng, tier):
     from . import witness_order
-    return witness_order.search(deadline, rng, graphs=200 if tier == 'thorough' else 40, orders=24 if tier == 'thorough' else 5)
+    return witness_order.search(deadline, rng, graphs=300 if tier == 'thorough' else 60, orders=120 if tier == 'thorough' else 12)
 
 
 def _modules(deadline, rng, tier):
@@ -90,7 +90,7 @@ SUITES = {
     'C11': [('word_layout', _layout, 'typer layout beyond align_struct',
              'words of 1..5 integer members (all 9 sizes) x 5 declared sizes, <= 900 cases'),
             ('order_and_cycles', _order, 'scoper cycle detection (found_container*), declaration sorting',
-             'random dependency graphs of <= 5 constants or <= 5 structures, acyclic or with one cycle, in random declaration orders')],
+             'random dependency graphs of <= 5 constants or <= 5 structures, acyclic or with one simple cycle of length 1..5, each in 12 (thorough: all) declaration orders')],
     'C12': [('module_visibility', _modules, 'expand() (import fix-point), path resolution in context',
              '18 module sets of 2..4 files (public/private function, constant, structure; direct, missing, transitive, diamond imports; relative paths; look-alike file names) x file orders')],
     'C13': [('determinism', _determinism, 'HashMap/HashSet iteration order in scoper/typer/expander',
